@@ -21,3 +21,15 @@ Proof. vm_compute. reflexivity. Qed.
 
 Lemma live_xsd_size : (0 <? length live_xsd)%nat = true.
 Proof. vm_compute. reflexivity. Qed.
+
+(* a live class with a content model registers only children of that model (or one of the reviewed exceptions
+   Xsd.xsd_extra_allowed): what the class "knows" is what the schema gives the element *)
+Lemma live_xsd_known_ok : xsd_known_b live_table live_xsd xsd_extra_allowed = true.
+Proof. vm_compute. reflexivity. Qed.
+
+(* every live class of kind KAttrValue has neither schema attributes nor children (C12/Build.v: av_obj) *)
+Lemma live_av_plain : forallb (fun ci => match c_kind ci with
+                                        | KAttrValue => match c_attributes ci, c_children ci with [], [] => true | _, _ => false end
+                                        | KPlain => true
+                                        end) live_table = true.
+Proof. vm_compute. reflexivity. Qed.
